@@ -238,3 +238,5 @@ example : (runImplL { heap := #[.list []], rng := 0, rx := [] } 0
     [.push (.int 1), .push (.int 2), .popAt (-2), .insert 5 (.int 3), .set 0 (.int 9), .popAt 7]).heap.get? 0 =
     some (.list [.int 9, .int 3]) := by rfl
 
+
+end SqProps.C14
